@@ -647,6 +647,9 @@ class Topology(ABC):
         # check nodes
         for n in self.nodes.values():
             n.validate_constraints()
+        # facilities are not listed among the nodes
+        for n in (self.facilities or dict()).values():
+            n.validate_constraints()
 
         check_num_instances = set()
         # check network services, interfaces, sites
